@@ -83,6 +83,11 @@ def make_case(seedt, tier, cuda):
             K = int(rng.choice([8193, 16385, 32769, 40000]))
             L = int(rng.choice([1, 2, 3, 5, 8, 16]))
         cap = 3_000_000 if tier == "quick" else 30_000_000
+        if rng.random() < 0.012:
+            # a gather of more than 2^23 samples (memory-capped block processing territory)
+            L = int(rng.choice([1024, 2048, 4097]))
+            K = int(9_500_000 // L) + int(rng.integers(0, 50))
+            cap = 20_000_000
         while K * L > cap and K in K_SET:
             K = K_SET[max(0, K_SET.index(K) - 1)]
     c = {
